@@ -26,8 +26,8 @@ def jobs(tier):
                       '_ZN6muscle9PulseNode20ReschedulePulseChildEPS0_i.0': kb, '_ZN6muscle9PulseNode15GetPulseTimeAuxEmRm.0': kb + 1, '_ZN6muscle9PulseNode8PulseAuxEm.0': kb + 1,
                       '_ZN6muscle9PulseNode18ClearPulseChildrenEv.0': 4, '_ZN6muscle9PulseNode18ClearPulseChildrenEv.1': kb + 1}
                 J.append(Job('pulse tree=%d(%s) scenario=%d(%s) k=%d%s' % (t, name, sc, SCEN[sc], k, ' +structure' if structure else ''), 'B', 'harness/cpp/pulse.cpp', 'harness_pulse', srcs=['util/PulseNode.cpp'],
-                             pdefs={'IR2C_P0': t, 'IR2C_P1': sc, 'IR2C_P2': k, 'IR2C_P3': structure, 'IR2C_P4': 0, 'IR2C_P5': 0}, unwind=(nn + 3 if not structure else 9), unwindset=us, mode='func',
-                             family='pulse/scenario%d' % sc, object_bits=10, timeout=(900 if tier == 'quick' else 3000), native_srcs=['util/PulseNode.cpp'], solver='cadical', slice_formula=True, mem_gb=(3 if nn == 2 else 14 if tier == 'quick' else 24)))
+                             pdefs={'IR2C_P0': t, 'IR2C_P1': sc, 'IR2C_P2': k, 'IR2C_P3': structure, 'IR2C_P4': 0, 'IR2C_P5': 0}, unwind=(nn + 3 if not structure else 14), unwindset=us, mode='func',
+                             family='pulse/scenario%d' % sc, object_bits=10, timeout=(900 if tier == 'quick' else 3000), native_srcs=['util/PulseNode.cpp'], solver='cadical', slice_formula=True, mem_gb=(8 if nn == 2 else 16 if tier == 'quick' else 24)))
     return J
 
 
